@@ -81,9 +81,9 @@ Definition name_changes (r : rstate) (kd : nkind) (k : ip) (name : N) : bool :=
 Definition owns (a : amap) (m : mac) (x : ip) : bool :=
   match a x with Some e => a_mac e =? m | None => false end.
 Definition has_addr (a : amap) (dom : list ip) (m : mac) : bool := existsb (owns a m) dom.
-(* after the map changed from a to a': a MAC that lost an address and has none left is forgotten, with its offer *)
+(* after the map changed from a to a': a MAC that owned an address and owns none any more is forgotten, with its offer *)
 Definition offers_after (a a' : amap) (dom : list ip) (off : mac -> ip) : mac -> ip :=
-  fun m => if existsb (fun x => owns a m x && negb (owns a' m x)) dom && negb (has_addr a' dom m) then IPnone else off m.
+  fun m => if has_addr a dom m && negb (has_addr a' dom m) then IPnone else off m.
 Definition set_offer_of (off : mac -> ip) (m : mac) (k : ip) : mac -> ip := fun m' => if m' =? m then k else off m'.
 
 (* the DHCP path of Notify: a frame without host event, classified DHCPv4, whose source MAC has a recorded offer y
